@@ -174,7 +174,19 @@ package nsx
 // the first address of their groups are ordered by the whole address lists, so
 // that device and target list them in the same order (structural guard of the
 // repaired sort tie, see known-findings.txt).
+// The comparator and rulesPair.Equal use the same keys: two rules that tie in
+// the sort agree in the string and integer keys that Equal compares (the boolean keys go
+// through a local helper closure that the engine does not resolve here; a key dropped from the
+// sort would leave rules that differ in it in input order, and device and target
+// would list them differently).
 //vc:func sortRules$5
+//vc:  hypothesis[C04] a != nil && b != nil && len(a.Services) > 0 && len(b.Services) > 0
+//vc:  ensures[C04] @tiedRulesAgreeInDirection result == 0 ==> a.Direction == b.Direction
+//vc:  ensures[C04] @tiedRulesAgreeInSequenceNumber result == 0 ==> a.SequenceNumber == b.SequenceNumber
+//vc:  ensures[C04] @tiedRulesAgreeInAction result == 0 ==> a.Action == b.Action
+//vc:  ensures[C04] @tiedRulesAgreeInTag result == 0 ==> a.Tag == b.Tag
+//vc:  ensures[C04] @tiedRulesAgreeInIPProtocol result == 0 ==> a.IPProtocol == b.IPProtocol
+//vc:  ensures[C04] @tiedRulesAgreeInService result == 0 ==> a.Services[0] == b.Services[0]
 //vc:  assert[C04] at "groupCmp(a.SourceGroups[0], b.SourceGroups[0])" @tieBrokenByAllAddresses true
 //vc:  assert[C04] at "return groupCmp(a.DestinationGroups[0], b.DestinationGroups[0])" @tieBrokenByAllDestinationAddresses true
 
